@@ -50,6 +50,47 @@ theorem C19_listed_under (o : Opts) (es : List Entry) (fuel : Nat) :
       · simp only [List.mem_singleton] at hp; subst hp; simp [List.isPrefixOf_iff_prefix]
       · simp at hp
 
+/-- **No leading `./`.** Walking the root `.` prints every path relative to it: when no entry of the
+    tree is named `.` or with a leading `./` (entries are relative paths), no listed path starts with
+    `./` — whatever the options, the depth and the links followed. -/
+theorem C19_no_dot_slash (o : Opts) (es : List Entry)
+    (hes : ∀ e ∈ es, e.path ≠ [46] ∧ ([46, 47] : Str).isPrefixOf e.path = false) :
+    ∀ p ∈ walk o es [46], ([46, 47] : Str).isPrefixOf p = false := by
+  intro p hp
+  unfold walk at hp
+  simp only [beq_self_eq_true, if_true, List.mem_flatMap, List.mem_filter] at hp
+  obtain ⟨c, ⟨hc, _⟩, hpc⟩ := hp
+  have hpre := C19_listed_under o es (es.length + 2) c c.path c.path p hpc
+  obtain ⟨hdot, hcp⟩ := hes c hc
+  rw [List.isPrefixOf_iff_prefix] at hpre
+  cases h : ([46, 47] : Str).isPrefixOf p with
+  | false => rfl
+  | true =>
+    exfalso
+    rw [List.isPrefixOf_iff_prefix] at h
+    -- both [46,47] and c.path are prefixes of p; c.path is not empty (the filter) and does not start with "./"
+    obtain ⟨r1, h1⟩ := h
+    obtain ⟨r2, h2⟩ := hpre
+    cases hcpath : c.path with
+    | nil =>
+      rename_i hne
+      simp [hcpath] at hne
+    | cons a rest =>
+      rw [hcpath] at h2 hcp
+      rw [← h1] at h2
+      simp only [List.cons_append, List.cons.injEq] at h2
+      obtain ⟨ha, hrest⟩ := h2
+      subst ha
+      cases rest with
+      | nil =>
+        -- c.path = "." : a file or directory literally named "." is not an entry of a tree
+        exact hdot hcpath
+      | cons b rest' =>
+        simp only [List.cons_append, List.cons.injEq] at hrest
+        obtain ⟨hb, _⟩ := hrest
+        subst hb
+        simp [List.isPrefixOf] at hcp
+
 /-- Skip rules, on concrete paths: a base name matches only the last component, `foo/bar`
     matches `foo/bar` and `baz/foo/bar` but not `bazfoo/bar`. -/
 theorem C19_skip_rules :
